@@ -48,7 +48,7 @@ SubContent == {"ExpireAt", "ChannelInfo", "EmitPresence", "EmitJoinLeave", "Push
                "RecoveryMode", "Data", "RecoverSince", "AutoCacheRecover", "Source", "HistoryMetaTTL", "ServerTagsFilter"}
 RecoveryGroup == {"Positioning", "Recovery", "RecoveryMode", "RecoverSince", "AutoCacheRecover", "HistoryMetaTTL"}
 Content(op) == CASE op = "subscribe"   -> SubContent
-                 [] op = "unsubscribe" -> {"Custom"}
+                 [] op = "unsubscribe" -> {"Custom", "EmptyChannel"}   \* EmptyChannel: the channel argument is "" (= all channels)
                  [] op = "disconnect"  -> {"Custom", "Whitelist"}
                  [] op = "refresh"     -> {"Expired", "ExpireAt", "Info"}
 Opts(op) == Targeting \cup Content(op)
@@ -99,11 +99,11 @@ Wire(op, X) == {f \in ProtoT[op] : \E o \in X : <<o, f>> \in EncT[op]}
 \* the options the receiving node applies
 Remote(op, X) ==
   LET W == Wire(op, X) IN
-  (X \cap {"AnonUser"}) \cup
+  (X \cap {"AnonUser", "EmptyChannel"}) \cup       \* user and channel travel as given
   {o \in OptsT[op] : /\ \E f \in W : <<f, o>> \in DecT[op]
                      /\ \A f \in ProtoT[op] : <<f, o>> \in DecT[op] => f \in W}
 
-LostT == [o \in Ops |-> {c \in Opts(o) \ {"AnonUser"} : c \notin Remote(o, {c})}]
+LostT == [o \in Ops |-> {c \in Opts(o) \ {"AnonUser", "EmptyChannel"} : c \notin Remote(o, {c})}]
 Lost(op) == LostT[op]
 
 ---------------------------------------------------------------------------
@@ -149,7 +149,8 @@ PerConn(op, X) ==
           hist        |-> HistCall(X),
           offset      |-> Offset(X),
           stf         |-> B("ServerTagsFilter" \in X)]
-    [] op = "unsubscribe" -> [custom |-> B("Custom" \in X)]
+    \* the harness subscribes every connection to the channel and to a second one: rest = what became of the second
+    [] op = "unsubscribe" -> [custom |-> B("Custom" \in X), rest |-> IF "EmptyChannel" \in X THEN "gone" ELSE "kept"]
     [] op = "disconnect"  -> [custom |-> B("Custom" \in X)]
     [] op = "refresh" ->
          \* Client.Refresh: Expired closes the connection; otherwise a refresh push; Info is taken only with ExpireAt
